@@ -564,6 +564,15 @@ func (m *metadataAPI) ShrinkISR(ctx context.Context, req *proto.ShrinkISROp) *st
 				leader, epoch, req.Leader, req.LeaderEpoch))
 	}
 
+	// Ensure the replica being removed is not the leader. The leader is
+	// always in the ISR, it can only be replaced.
+	if req.ReplicaToRemove == leader {
+		return status.New(
+			codes.FailedPrecondition,
+			fmt.Sprintf("Replica %s is the leader for partition [stream=%s, partition=%d]",
+				req.ReplicaToRemove, req.Stream, req.Partition))
+	}
+
 	// Replicate ISR shrink through Raft.
 	op := &proto.RaftLog{
 		Op:          proto.Op_SHRINK_ISR,
